@@ -11,7 +11,8 @@ ASSUMPTIONS = ["A2 segyio writes/reads SEG-Y and converts IEEE<->IBM", "delay re
 RULE = ("generated SEG-Y sources (IBM/IEEE; regular with ascending/descending/non-unit axes, irregular, 2D; header plans; binary "
         "header fields incl. ensemble fold >= 256; t0 incl. negative) x compression settings incl. non-square blockshapes x "
         "{API, CLI}: exported file opens in segyio with the same geometry/trace count/sample axis, first 3600 bytes identical, "
-        "every trace header equal, samples == SgzReader values exactly (IEEE) / within 2^-20 relative (IBM), trace order kept")
+        "every trace header equal, samples == SgzReader values exactly (IEEE) / within 2^-20 relative (IBM), trace order kept"
+        "; K: Model/Export format decision and header bytes, also for format codes segyio never writes (patched stored header)")
 
 
 def one(ctx, rng, k):
